@@ -121,6 +121,13 @@ func restOf(d ocispec.Descriptor) string {
 	return string(b)
 }
 
+func copyMapNil(m map[string]string) map[string]string {
+	if m == nil {
+		return nil
+	}
+	return copyMap(m)
+}
+
 func copyMap(m map[string]string) map[string]string {
 	c := make(map[string]string, len(m))
 	for k, v := range m {
@@ -169,11 +176,16 @@ type signScript struct {
 type recSigner struct {
 	rec    *recorder
 	script signScript
+	pool   *x509.CertPool // the TSARootCAs the caller passed (identity is checked)
+	optBad *string
 }
 
 func (s *recSigner) Sign(ctx context.Context, desc ocispec.Descriptor, opts notation.SignerSignOptions) ([]byte, *signature.SignerInfo, error) {
 	h := s.rec.h
 	s.rec.signs = append(s.rec.signs, CApp("mk_sign_call", h.deep(desc), CStr(opts.SignatureMediaType), CZ(int64(opts.ExpiryDuration)), CStr(opts.SigningAgent), h.mref(opts.PluginConfig)))
+	if opts.TSARootCAs != s.pool || opts.Timestamper != nil || opts.TSARevocationValidator != nil {
+		*s.optBad = "the signer did not receive the caller's TSARootCAs / Timestamper / TSARevocationValidator"
+	}
 	if s.script.err {
 		return nil, nil, errScriptSigner
 	}
@@ -409,7 +421,7 @@ func runC11(a *Args) error {
 	prelude := "From NV Require Import Base C11_Model.\nOpen Scope string_scope.\n"
 	w := NewCaseWriter(a, "C11", prelude, "case", "run")
 	w.ShardSize = 400
-	w.Rule = "histories of 1-3 consecutive notation.SignOCI calls with an instrumented signer against (mem) an in-memory repository whose Resolve returns its stored descriptor with the stored annotation map, and (oci) a real on-disk OCI layout opened with registry.NewOCIRepository whose tag entry carries annotations. Resolved descriptors with nil / empty / 1-3 annotations; user metadata nil / empty / disjoint / colliding with an annotation / under the reserved prefix (and near misses of the prefix) / mixed; references: tag, digest, full reference with tag or digest, unknown, digest resolving to another digest; option errors; signer errors, nil SignerInfo, zero signing time, chains of 0-3 certificates; signer with/without PluginAnnotations (nil, empty, populated, stale thumbprint); push ok / error / referrers-index-deletion error; 60% of the later calls repeat the first call's options with the same map objects. non-trivial = some call reached the signer or was refused for digest mismatch / reserved / colliding metadata; distinct = distinct (input, observation) terms"
+	w.Rule = "(systematic) for 3 annotation sets of the artifact (empty-valued, two entries, nil) x 22 second steps B (colliding / same-value / reserved exact, without dot, with dot / near misses of the prefix / digest resolving elsewhere / empty media type / signer error / push error / zero time / other artifact colliding there or only here / by digest / full, tag+digest, upper-case host, reference-less forms / empty and nil metadata / plugin annotations / other chain and time) the sequences A-B-A, B-A-B, B-B-A on ONE repository instance with the same option and map objects for equal steps, in both modes; (random) histories of 1-3 consecutive notation.SignOCI calls with an instrumented signer against (mem) an in-memory repository whose Resolve returns its stored descriptor with the stored annotation map, and (oci) a real on-disk OCI layout opened with registry.NewOCIRepository whose tag entry carries annotations. Resolved descriptors with nil / empty / 1-3 annotations; user metadata nil / empty / disjoint / colliding with an annotation / under the reserved prefix (and near misses of the prefix) / mixed; references: tag, digest, full reference with tag or digest, unknown, digest resolving to another digest; option errors; signer errors, nil SignerInfo, zero signing time, chains of 0-3 certificates; signer with/without PluginAnnotations (nil, empty, populated, stale thumbprint); push ok / error / referrers-index-deletion error; 60% of the later calls repeat the first call's options with the same map objects. non-trivial = some call reached the signer or was refused for digest mismatch / reserved / colliding metadata; distinct = distinct (input, observation) terms"
 	w.Assumptions = []string{
 		"every Go map that exists before the first call is a heap object identified by its pointer; a map allocated by SignOCI and handed to one callee is a value (MFresh)",
 		"orasRegistry.ParseReference and digest.Parse are oracles (their answer on the case's reference is an input of the model)",
@@ -444,11 +456,27 @@ func runC11(a *Args) error {
 	g.fsBase, _ = filepath.Abs(g.fsBase)
 	defer os.RemoveAll(g.fsBase)
 
-	nMem, nOci := 1250, 250
+	nMem, nOci := 1050, 210
 	if a.Tier == "thorough" {
 		nMem, nOci = 40000, 6000
 	}
 	var id int64
+	// systematic histories A-B-A / B-A-B / B-B-A on one repository instance, in both modes
+	for _, sc := range scenarios() {
+		for _, mode := range []string{"mem", "oci"} {
+			if mode == "oci" && sc.memOnly {
+				continue
+			}
+			my := id
+			id++
+			if !w.Want(my) {
+				continue
+			}
+			if err := g.history(w, rng.Fork(uint64(my)), my, mode, sc.scenario); err != nil {
+				return fmt.Errorf("scenario %s (%d): %w", sc.name, my, err)
+			}
+		}
+	}
 	for k := 0; k < nMem+nOci; k++ {
 		my := id
 		id++
@@ -460,7 +488,7 @@ func runC11(a *Args) error {
 		if k%6 == 5 && nOci > 0 {
 			mode = "oci"
 		}
-		if err := g.history(w, rng.Fork(uint64(my)), my, mode); err != nil {
+		if err := g.history(w, rng.Fork(uint64(my)), my, mode, nil); err != nil {
 			return fmt.Errorf("history %d: %w", my, err)
 		}
 	}
@@ -533,7 +561,36 @@ func pickKind(r *Rng) string {
 	return "mixed"
 }
 
-func (g *genCtx) history(w *CaseWriter, r *Rng, id int64, mode string) error {
+// scenario: a systematically built history (two artifacts v1, v2 with fixed annotations;
+// steps share their map objects when the same step occurs twice).
+type scenario struct {
+	name         string
+	annV1, annV2 map[string]string
+	steps        []*callSpec // the sequence; Ref is symbolic (see resolveRef)
+}
+
+// resolveRef turns the symbolic reference of a scenario step into a reference string.
+func resolveRef(sym string, digests map[string]string, bad string) string {
+	switch {
+	case strings.HasPrefix(sym, "digest:"):
+		return digests[sym[7:]]
+	case strings.HasPrefix(sym, "full:"):
+		return "reg.example.test/repo:" + sym[5:]
+	case strings.HasPrefix(sym, "fulldigest:"):
+		return "reg.example.test/repo@" + digests[sym[11:]]
+	case strings.HasPrefix(sym, "tagdigest:"):
+		return "reg.example.test/repo:ignored-tag@" + digests[sym[10:]]
+	case strings.HasPrefix(sym, "upper:"):
+		return "REG.example.test:5000/a/b_c/d:" + sym[6:]
+	case sym == "noref":
+		return "reg.example.test/repo"
+	case sym == "bad":
+		return bad
+	}
+	return sym
+}
+
+func (g *genCtx) history(w *CaseWriter, r *Rng, id int64, mode string, scen *scenario) error {
 	ctx := context.Background()
 	h := newHeap()
 	rec := &recorder{h: h}
@@ -566,34 +623,43 @@ func (g *genCtx) history(w *CaseWriter, r *Rng, id int64, mode string) error {
 			}
 		}
 		dA := ocispec.Descriptor{MediaType: Pick(r, mtPool), Digest: digest.Digest(D[0]), Size: int64(1 + r.Intn(5000)), Annotations: mkAnn()}
-		if r.Chance(1, 5) {
-			dA.ArtifactType = "application/vnd.example.thing"
-		}
-		if r.Chance(1, 10) {
-			dA.URLs = []string{"https://example.test/blob"}
-		}
-		mem.table["v1"] = dA
-		plainA := dA
-		plainA.Annotations = nil
-		if r.Bool() {
-			mem.table[D[0]] = dA // the digest resolves to the stored descriptor, same map
-		} else {
-			mem.table[D[0]] = plainA
-		}
-		if r.Chance(2, 5) {
-			dB := ocispec.Descriptor{MediaType: Pick(r, mtPool), Digest: digest.Digest(D[1]), Size: int64(1 + r.Intn(5000)), Annotations: mkAnn()}
-			if r.Chance(1, 8) && dA.Annotations != nil {
-				dB.Annotations = dA.Annotations // two descriptors sharing one map object
-			}
-			mem.table["v2"] = dB
-			mem.table[D[1]] = dB
-		}
-		if r.Chance(1, 2) {
-			mem.table[D[2]] = dA // a digest reference that resolves to a different digest
+		if scen != nil {
+			dA.Annotations = copyMapNil(scen.annV1)
+			dB := ocispec.Descriptor{MediaType: mtPool[0], Digest: digest.Digest(D[1]), Size: 77, Annotations: copyMapNil(scen.annV2)}
+			mem.table["v1"], mem.table[D[0]] = dA, dA
+			mem.table["v2"], mem.table[D[1]] = dB, dB
+			mem.table[D[2]] = dA
 			badRefs = append(badRefs, D[2])
-		}
-		if r.Chance(1, 6) {
-			mem.table["sha256:abc"] = dA // looks like a digest, is not one: a tag
+		} else {
+			if r.Chance(1, 5) {
+				dA.ArtifactType = "application/vnd.example.thing"
+			}
+			if r.Chance(1, 10) {
+				dA.URLs = []string{"https://example.test/blob"}
+			}
+			mem.table["v1"] = dA
+			plainA := dA
+			plainA.Annotations = nil
+			if r.Bool() {
+				mem.table[D[0]] = dA // the digest resolves to the stored descriptor, same map
+			} else {
+				mem.table[D[0]] = plainA
+			}
+			if r.Chance(2, 5) {
+				dB := ocispec.Descriptor{MediaType: Pick(r, mtPool), Digest: digest.Digest(D[1]), Size: int64(1 + r.Intn(5000)), Annotations: mkAnn()}
+				if r.Chance(1, 8) && dA.Annotations != nil {
+					dB.Annotations = dA.Annotations // two descriptors sharing one map object
+				}
+				mem.table["v2"] = dB
+				mem.table[D[1]] = dB
+			}
+			if r.Chance(1, 2) {
+				mem.table[D[2]] = dA // a digest reference that resolves to a different digest
+				badRefs = append(badRefs, D[2])
+			}
+			if r.Chance(1, 6) {
+				mem.table["sha256:abc"] = dA // looks like a digest, is not one: a tag
+			}
 		}
 		repo = mem
 	} else {
@@ -607,6 +673,9 @@ func (g *genCtx) history(w *CaseWriter, r *Rng, id int64, mode string) error {
 			return err
 		}
 		nArt := 1 + r.Intn(2)
+		if scen != nil {
+			nArt = 2
+		}
 		extras := map[string]map[string]string{}
 		for i := 0; i < nArt; i++ {
 			man, err := oras.PackManifest(ctx, store, oras.PackManifestVersion1_1, fmt.Sprintf("application/vnd.c11.test%d", i), oras.PackManifestOptions{
@@ -618,7 +687,9 @@ func (g *genCtx) history(w *CaseWriter, r *Rng, id int64, mode string) error {
 			if err := store.Tag(ctx, man, tag); err != nil {
 				return err
 			}
-			if r.Chance(3, 4) {
+			if scen != nil {
+				extras[tag] = map[string]map[string]string{"v1": scen.annV1, "v2": scen.annV2}[tag]
+			} else if r.Chance(3, 4) {
 				extras[tag] = randMap(r, annKeyPool, 1+r.Intn(3))
 			}
 		}
@@ -678,7 +749,7 @@ func (g *genCtx) history(w *CaseWriter, r *Rng, id int64, mode string) error {
 			aref = CApp("AShared", CN(int64(a)))
 		}
 		tableTerms = append(tableTerms, CPair(CStr(p), CApp("mk_desc", CStr(d.MediaType), CStr(string(d.Digest)), CZ(d.Size), CStr(restOf(d)), aref)))
-		hd.Table[p] = d.Annotations
+		hd.Table[p] = copyMapNil(d.Annotations)
 		if d.Annotations != nil {
 			tableMaps = append(tableMaps, d.Annotations)
 		}
@@ -834,6 +905,22 @@ func (g *genCtx) history(w *CaseWriter, r *Rng, id int64, mode string) error {
 		return c
 	}
 	var calls []*callSpec
+	if scen != nil {
+		digests := map[string]string{}
+		for _, t := range []string{"v1", "v2"} {
+			if d, err := repo.Resolve(ctx, t); err == nil {
+				digests[t] = string(d.Digest)
+			}
+		}
+		for _, st := range scen.steps {
+			cp := *st // the same step twice: the same map objects
+			cp.Ref = resolveRef(st.Ref, digests, D[2])
+			cp.Result, cp.Err = "", ""
+			calls = append(calls, &cp)
+		}
+		nCalls = 0
+		w.Count("scenario", scen.name)
+	}
 	for k := 0; k < nCalls; k++ {
 		var c *callSpec
 		if k > 0 && r.Chance(3, 5) {
@@ -875,7 +962,12 @@ func (g *genCtx) history(w *CaseWriter, r *Rng, id int64, mode string) error {
 			script.time = time.Unix(c.Time, int64(r.Intn(1000000000))).In(zone)
 		}
 		var signer notation.Signer
-		base := recSigner{rec: rec, script: script}
+		var pool *x509.CertPool
+		if r.Chance(1, 3) {
+			pool = x509.NewCertPool()
+		}
+		optBad := ""
+		base := recSigner{rec: rec, script: script, pool: pool, optBad: &optBad}
 		switch c.PA {
 		case "none":
 			s := base
@@ -897,7 +989,7 @@ func (g *genCtx) history(w *CaseWriter, r *Rng, id int64, mode string) error {
 			mem.push, mem.pushDg = c.Push, pushDg
 		}
 		opts := notation.SignOptions{
-			SignerSignOptions: notation.SignerSignOptions{SignatureMediaType: c.Mt, ExpiryDuration: time.Duration(c.Expiry), PluginConfig: c.pcfg, SigningAgent: c.Agent},
+			SignerSignOptions: notation.SignerSignOptions{SignatureMediaType: c.Mt, ExpiryDuration: time.Duration(c.Expiry), PluginConfig: c.pcfg, SigningAgent: c.Agent, TSARootCAs: pool},
 			ArtifactReference: c.Ref, UserMetadata: c.meta}
 		// oracles
 		parse := "None"
@@ -917,6 +1009,9 @@ func (g *genCtx) history(w *CaseWriter, r *Rng, id int64, mode string) error {
 		c.Result = class
 		if err != nil {
 			c.Err = Short(err.Error(), 160)
+		}
+		if optBad != "" {
+			w.ImplViolation(id, optBad, hd, "")
 		}
 		if !known {
 			w.ImplViolation(id, "unclassified error from SignOCI: "+Short(err.Error(), 200), hd, "")
@@ -1128,4 +1223,87 @@ func diskStored(ctx context.Context, dir string, subjects []ocispec.Descriptor) 
 	}
 	sort.Slice(out, func(i, j int) bool { return out[i].sig < out[j].sig })
 	return out, nil
+}
+
+// ---------- systematic histories ----------
+
+type scenEntry struct {
+	*scenario
+	memOnly bool
+}
+
+// okStep: a call that succeeds on its own.
+func okStep(ref string, meta map[string]string) *callSpec {
+	kind := "disjoint"
+	if meta == nil {
+		kind = "nil"
+	} else if len(meta) == 0 {
+		kind = "empty"
+	}
+	return &callSpec{Ref: ref, RefKind: "scenario", MetaKind: kind, Mt: MtJWS, meta: meta, Sign: "ok", ChainIdx: 2, Time: 1700000000, PA: "none", Push: "ok"}
+}
+
+func scenarios() []scenEntry {
+	var out []scenEntry
+	annV2 := map[string]string{"b": "2"}
+	for vi, annV1 := range []map[string]string{{"a": ""}, {"a": "1", "k": "v"}, nil} {
+		type bstep struct {
+			name    string
+			mk      func() *callSpec
+			memOnly bool
+		}
+		with := func(c *callSpec, f func(c *callSpec)) *callSpec { f(c); return c }
+		bs := []bstep{
+			{"collide", func() *callSpec { return okStep("v1", map[string]string{"a": "x", "m2": "1"}) }, false},
+			{"collide-same-value", func() *callSpec { return okStep("v1", map[string]string{"a": annV1["a"]}) }, false},
+			{"reserved-exact", func() *callSpec { return okStep("v1", map[string]string{"io.cncf.notary": "x"}) }, false},
+			{"reserved-nodot", func() *callSpec { return okStep("v1", map[string]string{"io.cncf.notaryfoo": "x", "m2": "1"}) }, false},
+			{"reserved-dot", func() *callSpec { return okStep("v1", map[string]string{"m2": "", "io.cncf.notary.z": ""}) }, false},
+			{"near-prefix", func() *callSpec {
+				return okStep("v1", map[string]string{"io.cncf.notar": "x", "Io.cncf.notary": "y", "": "z"})
+			}, false},
+			{"digest-elsewhere", func() *callSpec { return okStep("bad", map[string]string{"m1": "v"}) }, true},
+			{"mt-empty", func() *callSpec {
+				return with(okStep("v1", map[string]string{"m1": "v"}), func(c *callSpec) { c.Mt = "" })
+			}, false},
+			{"signer-error", func() *callSpec {
+				return with(okStep("v1", map[string]string{"m1": "v"}), func(c *callSpec) { c.Sign = "err" })
+			}, false},
+			{"push-error", func() *callSpec {
+				return with(okStep("v1", map[string]string{"m1": "v"}), func(c *callSpec) { c.Push = "err" })
+			}, true},
+			{"time-zero", func() *callSpec {
+				return with(okStep("v1", map[string]string{"m1": "v"}), func(c *callSpec) { c.Sign = "timezero" })
+			}, false},
+			{"v2-collide-there", func() *callSpec { return okStep("v2", map[string]string{"b": "x"}) }, false},
+			{"v2-fine-there", func() *callSpec { return okStep("v2", map[string]string{"a": "x"}) }, false},
+			{"by-digest", func() *callSpec { return okStep("digest:v1", map[string]string{"a": "x"}) }, false},
+			{"by-full-digest", func() *callSpec { return okStep("fulldigest:v1", map[string]string{"m1": "v"}) }, false},
+			{"tag-and-digest", func() *callSpec { return okStep("tagdigest:v1", map[string]string{"m1": "v"}) }, false},
+			{"upper-host", func() *callSpec { return okStep("upper:v1", map[string]string{"m1": "v"}) }, false},
+			{"no-reference", func() *callSpec { return okStep("noref", map[string]string{"m1": "v"}) }, false},
+			{"meta-empty", func() *callSpec { return okStep("v1", map[string]string{}) }, false},
+			{"meta-nil", func() *callSpec { return okStep("v1", nil) }, false},
+			{"plugin-annotations", func() *callSpec {
+				return with(okStep("v1", map[string]string{"m1": "v"}), func(c *callSpec) {
+					c.PA, c.pa = "map", map[string]string{kThumb: "stale", "p": ""}
+				})
+			}, false},
+			{"other-chain-time", func() *callSpec {
+				return with(okStep("v1", map[string]string{"m1": "v"}), func(c *callSpec) { c.ChainIdx, c.Time = 3, 951782399 })
+			}, false},
+		}
+		for _, b := range bs {
+			if vi == 2 && strings.HasPrefix(b.name, "collide") {
+				continue // no annotation to collide with
+			}
+			A := okStep("v1", map[string]string{"m1": "v"})
+			A.pcfg = map[string]string{}
+			B := b.mk()
+			for si, seq := range [][]*callSpec{{A, B, A}, {B, A, B}, {B, B, A}} {
+				out = append(out, scenEntry{&scenario{name: fmt.Sprintf("%s/%s", b.name, []string{"ABA", "BAB", "BBA"}[si]), annV1: annV1, annV2: annV2, steps: seq}, b.memOnly})
+			}
+		}
+	}
+	return out
 }
